@@ -6,6 +6,7 @@ package main
 
 import (
 	"github.com/apernet/hysteria/core/v2/internal/congestion/bbr"
+	"github.com/apernet/hysteria/core/v2/internal/congestion/common"
 	vh "github.com/apernet/hysteria/core/v2/verifhlib"
 )
 
@@ -16,4 +17,5 @@ func init() {
 	vh.Register("pnq", bbr.NewVerifPnq)
 	vh.Register("bbr", bbr.NewVerifBbr)
 	vh.RegisterConsts(bbr.VerifConstsC12)
+	vh.RegisterConsts(common.VerifConstsC12)
 }
